@@ -285,6 +285,39 @@ func (c *FnCtx) Discharge(sc *SolverCfg) {
 		}
 		r := sc.race(f)
 		o.Verdict, o.Solver, o.TimeS = r.verdict, r.solver, r.time
+		if r.verdict != "unsat" && r.verdict != "sat" {
+			// undecided: split the goal into its conjuncts and prove each one separately
+			if parts := SplitTerm(o.Goal); len(parts) > 1 && len(parts) <= 64 {
+				all := true
+				var tot float64
+				var wgp sync.WaitGroup
+				res := make([]solveResult, len(parts))
+				for i, g := range parts {
+					wgp.Add(1)
+					go func(i int, g Term) {
+						defer wgp.Done()
+						fp := nextFile(o.Kind + "." + o.Label + ".part")
+						os.WriteFile(fp, []byte(c.smtFor([]*Obligation{{PC: o.PC, Goal: g}}, false)), 0o644)
+						res[i] = sc.race(fp)
+						if res[i].verdict == "unsat" {
+							os.Remove(fp)
+						}
+					}(i, g)
+				}
+				wgp.Wait()
+				for _, rr := range res {
+					tot += rr.time
+					if rr.verdict != "unsat" {
+						all = false
+					}
+				}
+				if all {
+					o.Verdict, o.Solver, o.TimeS = "unsat", res[0].solver+"(split)", r.time+tot
+					os.Remove(f)
+					return
+				}
+			}
+		}
 		if r.verdict != "unsat" {
 			o.Model = r.out
 			o.File = f
@@ -388,7 +421,7 @@ func SplitConj(t Term) []Term {
 // Explain re-checks every top-level conjunct of a failed obligation's goal.
 func (c *FnCtx) Explain(sc *SolverCfg, o *Obligation) []string {
 	var out []string
-	for i, g := range SplitConj(o.Goal) {
+	for i, g := range SplitTerm(o.Goal) {
 		sub := &Obligation{PC: o.PC, Goal: g}
 		f := filepath.Join(sc.Dir, fmt.Sprintf("explain.%d.smt2", i))
 		os.WriteFile(f, []byte(c.smtFor([]*Obligation{sub}, false)), 0o644)
